@@ -5,6 +5,7 @@ from hypothesis import strategies as st
 from vf import gens
 from vf.runner import hyp_run, run_cases, guard, fail, exc_failure
 
+THOROUGH_SCALE = 5      # multiplies every generated-case budget of the thorough tier
 RULE = ("dense images uint16/uint32/float32, shapes 1x1..64x64 (plus 2x65534 and 65534x2 in the thorough tier) x "
         "masks from 11 structured kinds / single pixel / first or last row or column only / full x cuts at, between "
         "and outside the pixel values x optional detector mask; round trip through from_data_mask / from_data_cut / "
